@@ -27,10 +27,11 @@ from vlib import t1
 ASSUMPTIONS = [
     "Model.Stop (a): the two request loads and the two scans of ABTI_sched_has_to_stop are separate snapshots, each scan reads one pool after the other; tearing inside one iteration (is_empty, then access, num_scheds, num_blocked of the same pool) is not modelled — those fields change only through the events of Model.Sched / the accounting machine, whose theorems give the values their meaning",
     "Model.Stop (b): a pool is freed by its owner (ABT_pool_free) only while no scheduler object lists it (the runtime does not check); error paths of creation (allocation failure inside sched_create / xstream_create, which release or detach pools on their own) are covered by C18's ladders, not by this machine; force_free (ABT_finalize) is not an event",
-    "num_scheds counts scheduler OBJECTS that list the pool (entries, to be exact), used or not: `only this scheduler consumes p` in the theorems means `no other live scheduler object lists p`; a scheduler that exists but runs nowhere counts as a consumer (see the report: an idle non-automatic scheduler over the pool makes the running stream ignore blocked units)",
-    "Model.Stop (c): one stream; the main-scheduler ULT and its request word survive a replacement, the new scheduler keeps whatever request word it has (fresh from sched_create, or stale when a non-automatic scheduler is reused: no_stop_without_request needs the word to be clear)",
+    "num_scheds counts scheduler OBJECTS that list the pool (entries, to be exact), used or not: `only this scheduler consumes p` in the theorems means `no other live scheduler object lists p`; a scheduler object that exists but runs nowhere counts as a consumer and makes the running stream ignore blocked units = OPEN known finding F15 (corpus/findings/f15_idle_sched_counts_as_consumer.c): the end-to-end join programs (iii) never leave an idle scheduler object over the pool, the accounting histories (ii) do contain idle schedulers (they only compare num_scheds)",
+    "OPEN known finding F16 (C17, corpus/findings/f16_replace_over_same_priv_pool.c): a same-stream replacement whose new first pool is a PRIV pool that the current main scheduler lists never completes; such replacements are excluded from the generated histories. A reused scheduler that was itself replaced earlier may be replaced again on its new stream (F14c, repaired by /repo 879f3ef: replace_done_forgets_pending); such histories are generated",
+    "Model.Stop (c): one stream; the main-scheduler ULT and its request word survive a replacement; the new scheduler's request word is cleared when it is attached (repair of F14, /repo f7cc1b7: attach_clears_requests; T2 (ii) dumps the real request word of every scheduler after every call and generates reuse of user-owned schedulers after their stream was freed / after they were replaced)",
     "configuration: ABT_CONFIG_ACTIVE_WAIT_POLICY is off (with it, a join by an external thread / tasklet busy-waits without setting REQ_JOIN, so finish_reaches_running_sched's `join` event would not set the bit)",
-    "T2 (ii) runs real pthread-backed streams but observes only after a call returned (deterministic); schedulers are attached to streams once (a non-automatic scheduler that was a main scheduler keeps its FINISH / REPLACE bits, reusing it is outside the generated histories); PRIV pools are consumed by one stream at a time; stacked schedulers (ABT_pool_add_sched) are in the model and tied by T1 only",
+    "T2 (ii) runs real pthread-backed streams but observes only after a call returned (deterministic); PRIV pools are consumed by one stream at a time; stacked schedulers (ABT_pool_add_sched) are in the model and tied by T1 only",
     "T2 (i) stores counters / requests / `used` / `access` directly into live objects (values no API sequence produces are included: negative counters, access outside the enum); the `concurrent` change between the two scans is scripted through the pools' is_empty callback",
 ]
 
@@ -64,6 +65,15 @@ def _retry(f, *a, **kw):
         except FileNotFoundError:
             time.sleep(2)
     return f(*a, **kw)
+
+
+_BITS = {}
+
+
+def _bits():
+    if not _BITS:
+        _BITS.update(tree_bits())
+    return _BITS
 
 
 def tree_bits():
@@ -227,9 +237,9 @@ def oracle_wb(lines, out, bits=None):
 class Sim:
     def __init__(self):
         self.pools = {}     # slot -> dict(auto, acc, kind, reserved)
-        self.scheds = {}    # slot -> dict(pools, auto, used, req, stale)   req: request word, stale: keeps a p_replace_sched
+        self.scheds = {}    # slot -> dict(pools, auto, used, req)   req: request word
         self.xs = {}        # slot -> dict(main, state)   state: run | joined
-        self.bits = dict(FINISH=1, EXIT=2, REPLACE=4)
+        self.bits = _bits()
 
     def count(self, p):
         return sum(s["pools"].count(p) for s in self.scheds.values())
@@ -298,7 +308,7 @@ def sim_apply(sim, line):
         for p, isnew in sl:
             if isnew:
                 sim.pools[p] = dict(auto=True, acc="mpmc", kind="fifo", reserved=True)
-        sim.scheds[k] = dict(pools=ids, auto=auto, used="notused", req=0, stale=False)
+        sim.scheds[k] = dict(pools=ids, auto=auto, used="notused", req=0)
         return True
 
     def attachable(k, x_replacing=None):
@@ -323,7 +333,7 @@ def sim_apply(sim, line):
         if sim.xs or sim.pools or sim.scheds:
             return "err", False
         sim.pools[0] = dict(auto=True, acc="mpmc", kind="fifo", reserved=True)
-        sim.scheds[0] = dict(pools=[0], auto=True, used="main", req=0, stale=False)
+        sim.scheds[0] = dict(pools=[0], auto=True, used="main", req=0)
         sim.xs[0] = dict(main=0, state="run")
         return "ok", True
     if not sim.xs:
@@ -441,16 +451,12 @@ def sim_apply(sim, line):
         waits = x == 0 or sim.xs[x]["state"] == "run"
         old = sim.xs[x]["main"]
         if (x == 0 and not sim.pools[p0]["reserved"]) or not attachable(k, x) or (
-                waits and sim.pools[p0]["acc"] == "priv" and p0 in sim.scheds[old]["pools"]) or (
-                # open finding F16 above; below: the current scheduler still carries the p_replace_sched of an earlier
-                # replacement (it was replaced, survived as a user-owned object and was attached again): the next same-stream
-                # replacement takes the "overwrite" branch on that dangling pointer (candidate defect, reported)
-                waits and sim.scheds[old]["stale"]):
+                # open finding F16
+                waits and sim.pools[p0]["acc"] == "priv" and p0 in sim.scheds[old]["pools"]):
             sim.pools, sim.scheds = keep
             return None, False
         if waits:
             sim.scheds[old]["req"] |= sim.bits["REPLACE"]
-            sim.scheds[old]["stale"] = True
         sim.scheds[k].update(used="main", req=0)
         sim.xs[x]["main"] = k
         sim.discard(old)
@@ -499,6 +505,15 @@ def oracle_hist(lines, out):
                             "ABTI_sched_has_unit counts its blocked units only when num_scheds == 1" %
                             (i, l, p, "automatic" if sim.pools[p]["auto"] else "user-owned", sim.pools[p]["acc"], got[p],
                              sim.count(p), who))
+            gots = dict((int(t.split(":")[0]), t.split(":")[1:]) for t in m.group(3).split())
+            for k in sorted(set(gots) & set(sim.scheds)):
+                sk = sim.scheds[k]
+                if len(gots[k]) == 2 and gots[k][0] == sk["used"] and int(gots[k][1]) != sk["req"]:
+                    if sk["used"] == "main" and sk["req"] == 0:
+                        return ("after line %d `%s`: scheduler %d is a main scheduler with request word %s although nobody requested "
+                                "anything from it since it was attached (a FINISH / REPLACE left from an earlier use makes the stream "
+                                "terminate or replace by itself)" % (i, l, k, gots[k][1]))
+                    return "after line %d `%s`: scheduler %d has request word %s, expected %d" % (i, l, k, gots[k][1], sk["req"])
             return "after line %d `%s`: scheduler objects are `%s`, expected `%s`" % (i, l, m.group(3).strip(), exp.split("| scheds")[1].strip())
     return None
 
@@ -593,7 +608,8 @@ def gen_hist(rng, nops, hist):
             q = rng.below(10)
             ok = False
             if q < 3 and fresh:
-                ok = emit("xs %d %d" % (x, rng.choice(fresh)), "xstream_create(sched)")
+                k = rng.choice(fresh)
+                ok = emit("xs %d %d" % (x, k), "xstream_create(sched)" + (":reused" if sim.scheds[k]["req"] else ""))
             elif q < 4:
                 ok = emit("xs %d n%d n%d" % (x, fresh_sched(), fresh_pool()), "xstream_create(NULL)")
             elif q < 5:
@@ -625,7 +641,7 @@ def gen_hist(rng, nops, hist):
             q = rng.below(10)
             if q < 3 and fresh:
                 k = rng.choice(fresh)
-                emit("setmain %d %d" % (x, k), "set_main_sched(sched):" + tag)
+                emit("setmain %d %d" % (x, k), "set_main_sched(sched):" + tag + (":reused" if sim.scheds[k]["req"] else ""))
             elif q < 4:
                 emit("setmain %d n%d n%d" % (x, fresh_sched(), fresh_pool()), "set_main_sched(NULL):" + tag)
             elif q < 5:
@@ -637,6 +653,34 @@ def gen_hist(rng, nops, hist):
                 emit("setmainb %d %d %s %s" % (x, fresh_sched(), pd, " ".join(pick_slots(private_first=(x == 0)))),
                      "set_main_sched_basic:" + tag)
         else:
+            # directed: a user-owned scheduler serves a stream, the stream is freed (or the scheduler replaced), and the same
+            # scheduler object is attached again (F14)
+            if ups and len(secondary) < 3 and rng.chance(1, 2):
+                p = rng.choice(ups)
+                k = fresh_sched()
+                x = nextx[0]
+                if emit("sched %d %s 0 %d" % (k, rng.choice(PREDEFS[:4]), p), "sched_create_basic") and \
+                        emit("xs %d %d" % (x, k), "xstream_create(sched)"):
+                    nextx[0] += 1
+                    x2 = x
+                    if rng.chance(1, 2):
+                        if rng.chance(1, 2):
+                            emit("join %d" % x, "join")
+                        emit("xfree %d" % x, "xstream_free")
+                        x2 = nextx[0]
+                    else:
+                        emit("setmainb %d %d basic n%d" % (x, fresh_sched(), fresh_pool()), "set_main_sched_basic:run")
+                        x2 = nextx[0]
+                    if k in sim.scheds and sim.scheds[k]["used"] == "notused":
+                        if rng.chance(2, 3):
+                            if emit("xs %d %d" % (x2, k), "xstream_create(sched):reused"):
+                                nextx[0] += 1
+                                if rng.chance(1, 2):
+                                    emit("setmainb %d %d basic n%d" % (x2, fresh_sched(), fresh_pool()),
+                                         "set_main_sched_basic:run:of a reused scheduler")
+                        elif running:
+                            emit("setmain %d %d" % (rng.choice(running), k), "set_main_sched(sched):run:reused")
+                continue
             # directed: a stream over a user-owned pool is freed and another one is created over the same pool
             if ups and len(secondary) < 4:
                 p = rng.choice(ups)
@@ -730,7 +774,7 @@ def t2_accounting(res, tier, broken, exe, deep):
     progs = [gen_hist(rng, nops, hist) for _ in range(nprog)]
     res.sample({"wb_stop_history": progs[0][:16]})
     n = _differential(res, broken, exe, TIE_II, progs, oracle_hist, legal_hist, 1,
-                      "num_scheds is not the number of live schedulers over the pool", 400)
+                      "the scheduler / pool objects after the call (num_scheds, used, request word) contradict the live objects", 400)
     res.add_cov(stop_histories=nprog, stop_history_ops=n, stop_history_histogram=dict(hist))
 
 
@@ -749,10 +793,10 @@ def e2e(res, exe, deep):
     rng = C.Rng(res.seed * 3559 + 603)
     if deep:
         blocked = [["e2e-blocked", pd, rng.below(3), 1 + rng.below(4), via, 1 + rng.below(3)]
-                   for via in (0, 2, 1) for pd in range(4)] + [["e2e-blocked", rng.below(4), rng.below(3), 4, 3, 1]]
+                   for via in (0, 2, 4, 1) for pd in range(4)] + [["e2e-blocked", rng.below(4), rng.below(3), 4, 3, 1]]
         repl = [["e2e-replace", pd1, rng.below(4), rng.below(3), 1 + rng.below(4), rng.below(2), rng.below(2)] for pd1 in range(4)] * 2
     else:
-        blocked = [["e2e-blocked", rng.below(4), rng.below(3), 1 + rng.below(4), rng.choice([0, 2]), 1 + rng.below(2)]]
+        blocked = [["e2e-blocked", rng.below(4), rng.below(3), 1 + rng.below(4), rng.choice([0, 2, 4]), 1 + rng.below(2)]]
         repl = [["e2e-replace", rng.below(4), rng.below(4), rng.below(3), 1 + rng.below(4), rng.below(2), rng.below(2)]]
     nrun = 0
     for family, runs in (("blocked", blocked), ("replace", repl)):
